@@ -1,7 +1,9 @@
 """C01 - every submitted job resolves exactly once, with its own outcome.
 Lane SIM (real parent-side pool code, scripted workers, virtual clock, seeded
 scheduler): expected-effects model around every parent step + provenance over
-unique job tags + stability sampling + callback counts + quiescence checks.
+unique job tags + stability sampling + callback counts + quiescence checks;
+job kinds apply / map / imap / imap_unordered, unsendable tasks, input iterables
+that raise after k items, discards, terminate_job, duplicates of old messages.
 Lane REAL (vmon.real): the same job mixes on real pools with real worker
 deaths, time limits and unpicklable arguments."""
 from vmon import simcheck
